@@ -28,10 +28,29 @@ def catalogue():
         'empty': '',
     }
     good = resp % 'https://idp.example.org'
-    for cut in sorted(set([1, 5, len(good) // 4, len(good) // 2, good.index('<saml:Issuer') + 3, good.index('</saml:Issuer') + 2,
-                           len(good) - 3, len(good) - 1])):
+    cuts = set([1, 5, len(good) // 4, len(good) // 2, good.index('<saml:Issuer') + 3, good.index('</saml:Issuer') + 2,
+                len(good) - 3, len(good) - 1])
+    cuts |= set(i + 1 for i, ch in enumerate(good[:-1]) if ch == '>')       # every structural boundary
+    for cut in sorted(cuts):
         docs['truncated@%d' % cut] = good[:cut]
     docs['well-formed'] = good
+    return docs
+
+
+def envelope_catalogue():
+    """malformed ENVELOPES for the SOAP entry points: the complete envelope cut at every structural boundary, a mismatched
+    closing tag, junk / a second root element after the envelope"""
+    good = ('<soap:Envelope xmlns:soap="http://schemas.xmlsoap.org/soap/envelope/"><soap:Header/><soap:Body>'
+            '<samlp:Response xmlns:samlp="urn:oasis:names:tc:SAML:2.0:protocol" xmlns:saml="urn:oasis:names:tc:SAML:2.0:assertion" '
+            'ID="i1" Version="2.0" IssueInstant="2020-01-01T00:00:00Z"><saml:Issuer>https://idp.example.org</saml:Issuer>'
+            '</samlp:Response></soap:Body></soap:Envelope>')
+    docs = {}
+    for i, ch in enumerate(good[:-1]):
+        if ch == '>':
+            docs['envelope-truncated@%d' % (i + 1)] = good[:i + 1]
+    docs['envelope-mismatched-close'] = good.replace('</soap:Envelope>', '</soap:Envelop>')
+    docs['envelope-junk-after'] = good + 'junk'
+    docs['envelope-second-root'] = good + '<x/>'
     return docs
 
 
@@ -101,10 +120,27 @@ def run(tier, seed):
                     violations.append({'name': 'bounded[hostile-xml]', 'entry': ename, 'document': dname,
                                        'what': 'file / network access during parsing: %r' % (accesses[before:],)})
                 distinct.add((ename, dname, outcome))
+        for ename, fn, expect in entries():
+            if not ename.startswith(('soap.', 'pack.')):
+                continue
+            for dname, doc in envelope_catalogue().items():
+                n += 1
+                try:
+                    res = fn('<?xml version="1.0"?>' + doc)     # (the declaration makes env() pass the text through unchanged)
+                    if not (res is None or res == '' or res == {} or res == b'' or (isinstance(res, tuple) and res and res[0] is None)):
+                        violations.append({'name': 'bounded[hostile-xml]', 'entry': ename, 'document': dname,
+                                           'what': 'a malformed SOAP envelope produced a message instead of an exception / None'})
+                        outcome = 'object'
+                    else:
+                        outcome = 'none'
+                except Exception as e:
+                    outcome = 'raise:' + type(e).__name__
+                distinct.add((ename, dname, outcome))
     finally:
         builtins.open, socket.socket = real_open, real_socket
     return {'name': 'hostile_xml', 'label': 'BOUNDED (validation of E-DEFUSED at the public parse entries; not a proof)',
-            'bound': '%d entry points x %d documents' % (len(entries()), len(catalogue())),
+            'bound': '%d entry points x %d documents + %d SOAP entry points x %d malformed envelopes' % (
+                len(entries()), len(catalogue()), len([e for e in entries() if e[0].startswith(('soap.', 'pack.'))]), len(envelope_catalogue())),
             'evaluations': n, 'distinct_outcomes': len(distinct), 'violations': violations}
 
 
